@@ -280,13 +280,14 @@ shim = common.Shim(%(lib)r)
 calls = pickle.load(open(%(pk)r, "rb"))
 n = 0
 for name, args in calls:
+    print("ASAN-CALL", n, name, flush=True)
     shim.call(name, *[a.copy() if isinstance(a, np.ndarray) else a for a in args])
     n += 1
-print("ASAN-REPLAY-DONE", n)
+print("ASAN-REPLAY-DONE", n, flush=True)
 """
 
 
-def asan_support(run, calls):
+def asan_support(run, calls, timeout=900):
     """Replay the captured calls (exact-size numpy buffers, malloc'ed => red zones) against kernels built with
     -fsanitize=address,undefined in a child process. Support for the failing-input search; not the proof."""
     info = {}
@@ -313,12 +314,16 @@ def asan_support(run, calls):
         env["UBSAN_OPTIONS"] = "print_stacktrace=1:halt_on_error=1:exitcode=98"
         env["OMP_NUM_THREADS"] = "4"
         try:
-            r = subprocess.run([sys.executable, "-c", code], capture_output=True, text=True, timeout=900, env=env, cwd=common.VERIF)
+            r = subprocess.run([sys.executable, "-c", code], capture_output=True, text=True, timeout=timeout, env=env, cwd=common.VERIF)
         except subprocess.TimeoutExpired:
             info["status"] = "skipped: sanitizer child timed out"
             return info
     info["returncode"] = r.returncode
     info["calls"] = len(calls)
+    last = [l for l in r.stdout.split("\n") if l.startswith("ASAN-CALL")]
+    if last:
+        info["last_call_index"] = int(last[-1].split()[1])
+        info["last_call"] = last[-1].split()[2]
     if "ASAN-REPLAY-DONE" in r.stdout and r.returncode == 0:
         info["status"] = "clean"
     elif "AddressSanitizer" in r.stderr or "runtime error" in r.stderr:
@@ -327,6 +332,33 @@ def asan_support(run, calls):
     else:
         info["status"] = "skipped: child failed without a sanitizer report (rc=%d): %s" % (r.returncode, r.stderr[-400:])
     return info
+
+
+def sanitizer_selection(calls, per_kernel):
+    """a few calls per kernel; for the kernels with index-table dependent temporaries prefer the calls whose
+    atom list is a proper subset (compact / primitive-first layouts)"""
+    by = {}
+    for c in calls:
+        by.setdefault(c[0], []).append(c)
+    out = []
+    for name, cs in by.items():
+        if name == "distribute_fc2":
+            cs = sorted(cs, key=lambda c: (len(c[1][1]) >= c[1][4].shape[1], -int(np.max(c[1][1]))))
+        out += cs[:per_kernel]
+    return out
+
+
+def report_sanitizer(run, info, calls):
+    run.cov["oracle"]["sanitizer"] = {k: v for k, v in info.items() if k != "report"}
+    if info.get("status") == "REPORT":
+        k = info.get("last_call_index")
+        name, args = calls[k] if k is not None and k < len(calls) else ("?", [])
+        m = [l for l in info.get("report", "").split("\n") if "ERROR: AddressSanitizer" in l or "runtime error" in l or " in " in l][:6]
+        run.violation("phonopy._phonopy.%s" % name, "sanitizer-report",
+                      "AddressSanitizer/UBSan reports an error inside the kernel while replaying a call captured from the Python layer: %s" % (m[0].strip() if m else "see report"),
+                      dict(kernel=name, signature=U.sig_of(name, args)[1:] if args else None,
+                           int_tables={str(i): a.tolist() for i, a in enumerate(args) if isinstance(a, np.ndarray) and a.dtype.kind == "i" and a.size <= 64},
+                           report_head=m, report_tail=info.get("report", "")[-1200:]))
 
 
 # --------------------------------------------------------------------------
@@ -398,6 +430,10 @@ def main(run):
             cfg["compact"], cfg["dense"], cfg["nac"] = False, True, "gonze"     # the full-fc reference paths run every time
         if s == 1:
             cfg["compact"], cfg["dense"], cfg["nac"] = True, False, "wang"
+            # a primitive cell with symmetry-inequivalent atoms: atom_list = p2s_map then has done atoms with index >= len(atom_list)
+            cfg["cell"] = rng.choice(["nacl_prim", "cscl", "zincblende_prim", "triclinic"])
+            cfg["pmat"] = "P"
+            cfg["smat"] = rng.choice([[[2, 0, 0], [0, 1, 0], [0, 0, 1]], [[1, 0, 0], [0, 2, 0], [0, 0, 2]], [[2, 0, 0], [0, 1, 0], [0, 0, 2]], [[1, 1, 0], [-1, 1, 0], [0, 0, 1]]])
         cfgs.append(cfg)
         U.set_threads(4)
         shim_omp.trace = cap
@@ -617,6 +653,32 @@ def main(run):
     # ---------------- correspondence with the Lean footprint model
     lines.append("inventory")
     owners.append(("inventory", None, None, None, None, None))
+    mallocs = [r["key"] for r in pragmas.malloc_inventory(common.REPO)]
+    lines.append("mallocs")
+    owners.append(("mallocs", None, None, None, None, None))
+    run.cov["correspondence"]["mallocs_found"] = len(mallocs)
+    subset_cases = 0
+    for name, args in cap.calls:
+        if name == "distribute_fc2":
+            npos, al, ma = args[4].shape[1], args[1], args[5]
+            lines.append("temp atom_list_reverse %d %d %s %d %s" % (npos, len(al), U.ints(al), len(ma), U.ints(ma)))
+            owners.append(("temp", name, len(al), None, dict(kernel=name, atom_list=al.tolist(), num_pos=npos), None))
+            if len(al) < npos and int(np.max(ma[al])) >= len(al):
+                subset_cases += 1
+        elif name in ("perm_trans_symmetrize_compact_fc", "transpose_compact_fc"):
+            npa, ns = args[0].shape[0], args[0].shape[1]
+            perms, s2pp, p2s, nsym = args[1], args[2], args[3], args[4]
+            it = [int(perms[nsym[j], p2s[ip]]) for j in range(ns) for ip in range(npa)]
+            lines.append("temp done %d %d %s %s" % (ns, npa, U.ints(s2pp), " ".join(map(str, it))))
+            owners.append(("temp", name, None, None, dict(kernel=name, n_satom=ns, n_patom=npa), None))
+        elif name == "tetrahedron_method_dos":
+            gmt = args[6]
+            nir = args[3].shape[0]
+            lines.append("temp gp2ir %d %s" % (len(gmt), U.ints(gmt)))
+            owners.append(("temp", name, None, None, dict(kernel=name, table="gp2ir"), None))
+            lines.append("temp ir_grid_points %d %d %s" % (nir, len(gmt), U.ints(gmt)))
+            owners.append(("temp", name, None, None, dict(kernel=name, table="ir_grid_points/weights"), None))
+    run.cov["correspondence"]["distribute_fc2 calls with subset atom_list and done index >= len(atom_list)"] = subset_cases
     loop_reqs = ["loop dynmat_ij 1 3", "loop ddm 1 2", "loop dmq 2 3 2", "loop dd_kk 1 5", "loop borns 1 3", "loop tetra_freq 3 2 3 1",
                  "loop dos 4 3 2 5 2", "loop thermal 2 4 3", "loop iw 1 7", "loopfc 2 6 6 0 3", "loopfc 2 4 2 0 1"]
     for lr in loop_reqs:
@@ -633,6 +695,19 @@ def main(run):
             if sorted(model_keys) != sorted(keys):
                 diff = sorted(set(keys) ^ set(model_keys))
                 run.broke("correspondence", "pragma inventory of /repo/c differs from the inventory the footprint model was written against", diff[:6])
+            continue
+        if name == "mallocs":
+            model_m = ans.split(" ## ")
+            if sorted(model_m) != sorted(mallocs):
+                run.broke("correspondence", "heap temporaries of /repo/c (malloc element counts) differ from the ones the footprint model was written against",
+                          sorted(set(mallocs) ^ set(model_m))[:6])
+            continue
+        if name == "temp":
+            run.count("temporary-bounds certificates", section="correspondence")
+            parts = ans.split()
+            if ans == "bad-op" or parts[1] != "true":
+                run.broke("correspondence", "model: accesses of a heap temporary exceed its allocated size on the implementation's tables", dict(info=info, answer=ans[:120]))
+                run.violation("phonopy._phonopy.%s" % k, "temporary-out-of-bounds", "index tables passed by the Python layer make the kernel index a heap temporary out of bounds (model)", info)
             continue
         if name == "loop":
             run.count("loop-bruteforce", section="correspondence")
@@ -658,10 +733,10 @@ def main(run):
     run.cov["correspondence"]["compared"] = ncmp
     run.cov["correspondence"]["thread_counts"] = U.THREADS_ALL
 
-    # ---------------- sanitizer support (thorough)
-    if thorough:
-        run.cov["oracle"]["sanitizer"] = asan_support(run, cap.calls)
-        if run.cov["oracle"]["sanitizer"].get("status") == "REPORT":
-            run.violation("phonopy._phonopy", "sanitizer-report", "AddressSanitizer/UBSan reported an error while replaying captured kernel calls",
-                          dict(report=run.cov["oracle"]["sanitizer"].get("report", "")[-1500:]))
+    # ---------------- sanitizer replay (both tiers): heap temporaries inside the kernels are invisible to value and
+    # guard-zone checks; the captured calls are replayed against an -fsanitize=address,undefined build in a child
+    sel = cap.calls if thorough else sanitizer_selection(cap.calls, 4)
+    info_s = asan_support(run, sel, timeout=900 if thorough else 120)
+    report_sanitizer(run, info_s, sel)
+    run.cov["oracle"]["sanitizer_calls_selected"] = len(sel)
     U.set_threads(4)
